@@ -84,7 +84,7 @@ class World:
                        "deepcopy_inside_context", "convert_inside_context", "eso_at_inside_context", "context_operator_not_looked_at", "propagation_inside_context", "time_dependent_tensor_in_pool", "evolution_at_inside_context",
                        "refused_construction_inside_context", "api_sweep_call",
                        "context_object_reentered_while_active", "context_object_entered_again_after_exit",
-                       "dipole_component_inside_context"]
+                       "dipole_component_inside_context", "system_bath_interaction_shared_by_two_tensors"]
     required_faults = ["F1_simfault", "F2_refused_write", "F3_dimension_mismatch"]
     components = {
         "real": ["Manager basis stack / registration / flags", "eigenbasis_of.__enter__/__exit__", "BasisManaged",
@@ -255,6 +255,7 @@ class Runner:
         self.entered = 0
         self.exits_done = 0
         self.ctxobjs = []
+        self.sbi_cache = {}
         self.cm_used = set()
         self.cm_next = None
         self.ta = qr.TimeAxis(0.0, 3, 1.0)
@@ -447,7 +448,12 @@ class Runner:
             ops = []
             for (a, b) in ((0, 1), (1, 0)):
                 ops.append(qr.qm.ProjectionOperator(a, b, dim=dim))
-            sbi = SystemBathInteraction(sys_operators=ops, rates=[0.1, 0.05])
+            # ONE system-bath interaction object per dimension serves every tensor of the run (as in user code)
+            if dim not in self.sbi_cache:
+                self.sbi_cache[dim] = SystemBathInteraction(sys_operators=ops, rates=[0.1, 0.05])
+            else:
+                self.ctx.probe("system_bath_interaction_shared_by_two_tensors")
+            sbi = self.sbi_cache[dim]
             if cls == "RelTensor":
                 LF = LindbladForm(H, sbi, as_operators=False)
                 if not native:
